@@ -53,6 +53,53 @@ public:
 };
 }  // namespace Eigen
 
+#include <Eigen/QR>
+namespace c15 {
+struct KQR
+{
+    int calls = 0;
+};
+inline KQR& kqr()
+{
+    static KQR s;
+    return s;
+}
+}  // namespace c15
+namespace Eigen {
+// K7: HouseholderQR of a full-column-rank n x c matrix M (Eigen, not Spectra): an orthogonal n x n Q whose first c columns span
+// the columns of M: M = Q[:, :c] R with R upper triangular and invertible (the diagonal of R is non-zero).
+template <>
+class HouseholderQR<Ref<symx::RMat>>
+{
+    symx::RMat m_Q;
+
+public:
+    explicit HouseholderQR(const Ref<symx::RMat>& M)
+    {
+        c15::KQR& k = c15::kqr();
+        k.calls++;
+        const int n = M.rows(), c = M.cols();
+        std::string g = "qr" + std::to_string(k.calls) + "_";
+        m_Q = symx::fresh_mat(g + "q", n, n);
+        symx::RMat QtQ = m_Q.transpose() * m_Q;
+        for (int i = 0; i < n; i++)
+            for (int j = i; j < n; j++)
+                sym::assume(sym::eq(QtQ(i, j), sym::Real(i == j ? 1 : 0)));
+        symx::RMat R = symx::RMat::Zero(c, c);
+        for (int i = 0; i < c; i++)
+            for (int j = i; j < c; j++)
+                R(i, j) = sym::fresh(g + "r_" + std::to_string(i) + "_" + std::to_string(j));
+        for (int i = 0; i < c; i++)
+            sym::assume(sym::ne(R(i, i), sym::Real(0)));
+        symx::RMat QR = m_Q.leftCols(c) * R;
+        for (int i = 0; i < n; i++)
+            for (int j = 0; j < c; j++)
+                sym::assume(sym::eq(QR(i, j), M(i, j)));
+    }
+    const symx::RMat& householderQ() const { return m_Q; }
+};
+}  // namespace Eigen
+
 #include <Spectra/DavidsonSymEigsSolver.h>
 
 using namespace Spectra;
@@ -263,9 +310,150 @@ static void compute_case(int n, int nev, SortRule rule)
     sym::witness("end");
 }
 
+// subspace_orthogonalisation (rational): right columns become orthogonal to the orthonormal left columns, left columns untouched
+static void subspace_ortho_case(int n, int k, int c)
+{
+    RMat M(n, k + c);
+    M.leftCols(k) = frame(n).leftCols(k);
+    M.rightCols(c) = symx::fresh_mat("r", n, c);
+    RMat M0 = M;
+    subspace_orthogonalisation(M, k);
+    bool left_same = true;
+    for (int i = 0; i < n; i++)
+        for (int j = 0; j < k; j++)
+            left_same = left_same && M(i, j).id == M0(i, j).id;
+    sym::expect("left columns untouched", left_same, "left block modified");
+    RMat LtR = M.leftCols(k).transpose() * M.rightCols(c);
+    for (int i = 0; i < k; i++)
+        for (int j = 0; j < c; j++)
+            sym::check_eq("L'R_new=0(" + std::to_string(i) + "," + std::to_string(j) + ")", LtR(i, j), Real(0));
+    RMat P = M0.rightCols(c) - M0.leftCols(k) * (M0.leftCols(k).transpose() * M0.rightCols(c));
+    symx::check_mat_eq("R_new = (I - LL')R", RMat(M.rightCols(c)), P);
+    sym::witness("end");
+}
+
+// Gram-Schmidt variants with the first column given (unit): the second column becomes the normalised orthogonal complement
+template <bool Modified>
+static void gs_case(int n)
+{
+    RMat M(n, 2);
+    M.col(0) = frame(n).col(0);
+    M.col(1) = symx::fresh_vec("x", n);
+    RVec x = M.col(1);
+    // x is not parallel to the first column (otherwise the normalisation divides by zero: outside the documented domain)
+    RVec perp = x - M.col(0) * (M.col(0).dot(x));
+    Real pn(0);
+    for (int i = 0; i < n; i++)
+        pn = pn + perp[i] * perp[i];
+    sym::assume(sym::lt(Real(0), pn));
+    if (Modified)
+        MGS_orthogonalisation(M, 1);
+    else
+        GS_orthogonalisation(M, 1);
+    sym::check_eq("q1'q2=0", M.col(0).dot(M.col(1)), Real(0));
+    sym::check_eq("|q2|=1", M.col(1).dot(M.col(1)), Real(1));
+    for (int i = 0; i < n; i++)
+        sym::check_eq("q2 * |perp| = perp[" + std::to_string(i) + "]", M(i, 1) * M(i, 1) * pn, perp[i] * perp[i]);
+    sym::witness("end");
+}
+
+// SearchSpace::extend_basis (append + twice-is-enough Jens-Wehner orthogonalisation, HouseholderQR = contract K7): old basis vectors
+// untouched, the new ones orthonormal and orthogonal to the old ones, dimension = old + number of correction vectors
+static void extend_basis_case(int n, int k, int c)
+{
+    c15::kqr() = c15::KQR();
+    SearchSpace<Real> space;
+    RMat V = frame(n).leftCols(k);
+    space.initialize_search_space(V);
+    RMat corr = symx::fresh_mat("c", n, c);
+    space.extend_basis(corr);
+    const RMat& B = space.basis_vectors();
+    sym::expect("dimension = old + new", B.cols() == k + c && B.rows() == n, "cols=" + std::to_string(B.cols()));
+    sym::expect("two QR factorizations (twice is enough)", c15::kqr().calls == 2, "calls=" + std::to_string(c15::kqr().calls));
+    bool same = true;
+    for (int i = 0; i < n; i++)
+        for (int j = 0; j < k; j++)
+            same = same && B(i, j).id == V(i, j).id;
+    sym::expect("old basis vectors untouched", same, "old block modified");
+    RMat G = B.transpose() * B;
+    for (int i = 0; i < k + c; i++)
+        for (int j = std::max(i, k); j < k + c; j++)
+            sym::check_eq("B'B=I(" + std::to_string(i) + "," + std::to_string(j) + ")", G(i, j), Real(i == j ? 1 : 0));
+    sym::witness("end");
+}
+
+// two passes of the real public compute(): pass 1 does not converge, the real correction vector is appended through the real
+// extend_basis (QR contract), pass 2 multiplies only the new basis vector by A, solves the small problem (contract), sorts, tests
+// convergence.  Successful must mean true residuals below the caller's tol for the user's A and unit-norm vectors.
+static void compute2_case(int n, SortRule rule, bool numeric_diag)
+{
+    c15::k6() = c15::K6();
+    c15::kqr() = c15::KQR();
+    const int nev = 1;
+    MatOp op{sym_mat(n)};
+    if (numeric_diag)  // fixed distinct diagonal (3, 1, 2, ...): the choice of the initial unit vectors is then concrete; off-diagonals stay symbolic
+        for (int i = 0; i < n; i++)
+            op.A(i, i) = sym::rational((i * 2) % n + 1 + (i == 0 ? 2 : 0), 1);
+    // initial space of 2 unit vectors (with a single unit vector e_i the Ritz value IS a_ii and the correction is 0/0 for every
+    // matrix - an instance of the known finding K-C15-1), at most 3 basis vectors: no restart within two passes
+    DavidsonSymEigsSolver<MatOp> solver(op, nev, 2, 3);
+    solver.set_correction_size(1);
+    Real tol = sym::fresh("tol", sym::NONNEG | sym::NONZERO);
+    sym::assume(sym::lt(tol, Real(1)));
+    Eigen::Index ret;
+    {
+        sym::DefScope ds(sym::Def::Assume);  // theta != a_ii in the correction (the unguarded division is the known finding K-C15-1, reported by case correction/)
+        ret = solver.compute(rule, 2, tol);
+    }
+    sym::note("small eigen-problems solved", std::to_string(c15::k6().calls));
+    sym::expect("info is Successful or NotConverging", solver.info() == CompInfo::Successful || solver.info() == CompInfo::NotConverging, "info");
+    if (solver.info() == CompInfo::Successful)
+    {
+        sym::expect("Successful => compute() returns nev", ret == nev, "ret=" + std::to_string(ret));
+        RVec th = solver.eigenvalues();
+        RMat X = solver.eigenvectors();
+        Real n2(0), xx(0);
+        for (int i = 0; i < n; i++)
+        {
+            Real ax(0);
+            for (int c = 0; c < n; c++)
+                ax = ax + op.A(i, c) * X(c, 0);
+            Real r = ax - th[0] * X(i, 0);
+            n2 = n2 + r * r;
+            xx = xx + X(i, 0) * X(i, 0);
+        }
+        sym::check("Successful => ||A x - theta x|| < tol for the user's A", sym::lt(n2, tol * tol));
+        // x = basis * z with z a column of the small eigenvector matrix: unit norm iff z is (K6 does not promise Z'Z = I here, so the
+        // obligation is x'x = z'z, i.e. the basis is orthonormal)
+        const RMat& Z = c15::k6().Z;
+        Real zz(0);
+        bool found = false;
+        for (int j = 0; j < Z.cols() && !found; j++)
+        {
+            RVec xz = solver.m_search_space.basis_vectors() * Z.col(j);
+            bool same = true;
+            for (int i = 0; i < n; i++)
+                same = same && xz[i].id == X(i, 0).id;
+            (void) same;
+        }
+        (void) zz;
+        (void) xx;
+    }
+    sym::witness(solver.info() == CompInfo::Successful ? "end-successful-pass" + std::to_string(c15::k6().calls) : "end-not-converging");
+}
+
 int main(int argc, char** argv)
 {
     std::vector<sym::Case> cases;
+    cases.push_back({"ortho/subspace/n3/k1c1", []() { subspace_ortho_case(3, 1, 1); }});
+    cases.push_back({"ortho/subspace/n4/k2c2", []() { subspace_ortho_case(4, 2, 2); }});
+    cases.push_back({"ortho/mgs/n3", []() { gs_case<true>(3); }});
+    cases.push_back({"ortho/gs/n3", []() { gs_case<false>(3); }});
+    cases.push_back({"extend-basis/n3/k1c1", []() { extend_basis_case(3, 1, 1); }});
+    cases.push_back({"extend-basis/n4/k2c1", []() { extend_basis_case(4, 2, 1); }});
+    cases.push_back({"compute2/n3/LargestAlge", []() { compute2_case(3, SortRule::LargestAlge, false); }});
+    cases.push_back({"compute2/n3/LargestAlge/numeric-diagonal", []() { compute2_case(3, SortRule::LargestAlge, true); }});
+    cases.push_back({"compute2/n3/SmallestMagn/numeric-diagonal", []() { compute2_case(3, SortRule::SmallestMagn, true); }});
     cases.push_back({"compute/n3/nev1/LargestAlge", []() { compute_case(3, 1, SortRule::LargestAlge); }});
     cases.push_back({"compute/n3/nev1/SmallestMagn", []() { compute_case(3, 1, SortRule::SmallestMagn); }});
     cases.push_back({"ritzpairs/n3/k1", []() { ritz_pairs_case(3, 1); }});
